@@ -9,7 +9,7 @@ for f in sorted(glob.glob("/verif/evidence/C*.json")):
     e = json.load(open(f))
     c = e["coverage"]
     rej = sum(c.get("rejected_by_compiler", {}).values()) if isinstance(c.get("rejected_by_compiler"), dict) else c.get("rejected_by_compiler", 0)
-    known = len([v for v in e.get("violations", []) if v.get("known")]) if isinstance(e.get("violations"), list) else 0
+    known = len(c.get("known_findings_hit", []))
     print(
         f"| {e['property_id']} | {e['tier']} | {c.get('evaluations', 0):,} ({c.get('space_size', 0):,}) | {c.get('exhaustive')} | {c.get('states', 0):,} | {c.get('transitions', 0):,} | "
         f"{c.get('traces_validated_against_impl', 0):,} | {c.get('distinct_nontrivial', 0):,} | {rej:,} | {known} | {e.get('wall_s', 0):.0f} s |"
